@@ -619,6 +619,15 @@ pub fn run_c07(tier: &str, seed: u64, model: &Model, corpus_lines: Vec<String>, 
         let c = CntCase { recs, k, threads: 16, mem: 6.0, acgt: false, sched: "free".into() };
         run_one(&c, "contention", &mut rep, &mut traces, &mut branching, &mut layouts);
     }
+    // (3b) a ceiling below 8e-9 GB: the chunk budget (1e9 * ceiling / 8, truncated) is 0 bases — every chunk still takes one
+    // record per worker, and the table must be exact
+    for _ in 0..(if tier == "thorough" { 40 } else { 6 }) {
+        let k = rng.range(1, 5) as usize;
+        let nrec = rng.range(1, 5) as usize;
+        let recs: Vec<Vec<u8>> = (0..nrec).map(|_| { let l = rng.range(k as u64, k as u64 + 8) as usize; gen::clean_seq(&mut rng, l, gen::Flavor::Uniform) }).collect();
+        let c = CntCase { recs, k, threads: *rng.pick(&[1usize, 2, 3]), mem: *rng.pick(&[1e-9, 4e-9, 7e-9, 7.9e-9]), acgt: false, sched: "free".into() };
+        run_one(&c, "zero-budget", &mut rep, &mut traces, &mut branching, &mut layouts);
+    }
     // (4) scale: multiplicities beyond 16 bits (one k-mer seen > 65536 times, within one record and across records) and more
     // than 2^16 records — narrow counters, block-wise readers, per-record budget arithmetic
     {
